@@ -187,7 +187,11 @@ func unq(raw string) (string, bool) {
 // ---------------------------------------------------------------- value pools
 var encStrings = []string{"", "plain", "with \"quotes\"", `back\slash`, "line\nbreak\r\ttab", "ctl\x01\x1f", "del\x7f",
 	"bad\xffutf\xc3", "\xe4\xb8", "héllo wörld ✓ 日本語", "valid \ufffd replacement rune", "sep\u2028\u2029 nul\x00", "\U0010ffff\u0080", "pipe||eq=sign", "  ", strings.Repeat("long", 300)}
-var encKeys = []string{"k", "key2", "", "a\"b", "x=y", "p|q", "nl\nkey", "bad\xfe", "ключ", "msg", "level", "k"}
+
+// keys: every escape class on its own inside otherwise plain text (a fast path may single out "plain" keys by a
+// check that forgets one class), plus structural characters of the text layout and header names
+var encKeys = []string{"k", "key2", "", "a\"b", "x=y", "p|q", "nl\nkey", "bad\xfe", "ключ", "msg", "level", "k",
+	`back\slash`, `C:\path`, `trailing\`, "ctl\x01k", "esc\x1b", "tab\tk", "cr\rk", "del\x7f", "nul\x00k", "cut\xe4\xb8", "hi\x80", "ls\u2028", "time", "fileLine", "tag"}
 var encInts = []int64{math.MinInt64, -1, 0, 1, math.MaxInt64, 1234567890123, -42}
 var encUints = []uint64{0, 1, math.MaxUint64, math.MaxInt64 + 1, 4294967296}
 var encFloats = []float64{0, math.Copysign(0, -1), 1.5, -2.25, 5e-324, math.MaxFloat64, -math.MaxFloat64, 1e21, 1e-7,
